@@ -1682,6 +1682,18 @@ theorem C04_arena_stale_passes_removed_check (a : Arena) (x y : Arena.NodeId)
   Arena.eitherRemoved_occupied (hx.elim Arena.LiveId.occupied Arena.Stale.occupied)
     (hy.elim Arena.LiveId.occupied Arena.Stale.occupied)
 
+/-- A FOREIGN id beyond the slot vector: every call panics on its first `arena[id]` (index out of bounds;
+    `following_siblings` / `preceding_siblings`: `arena.get(id).unwrap()`), before any write.  (An
+    in-range foreign id is treated like a removed one: no function can tell them apart.) -/
+theorem C04_arena_foreign_out_of_range (a : Arena) (x : Arena.NodeId) (h : a.slot x.index0 = none) (n : Nat) :
+    Arena.detach a x = .panic a ∧ Arena.remove a x = .panic a ∧ Arena.removeSubtree a x = .panic a ∧
+    Arena.isRemoved a x = .panic a ∧ Arena.value a x = .panic a ∧
+    Arena.children a x n = .panic a ∧ Arena.reverseChildren a x n = .panic a ∧
+    Arena.ancestors a x (n + 1) = .panic a ∧ Arena.followingSiblings a x n = .panic a ∧
+    Arena.precedingSiblings a x n = .panic a ∧ Arena.traverse a x (n + 1) = .panic a ∧
+    Arena.reverseTraverse a x (n + 1) = .panic a ∧ Arena.descendants a x (n + 1) = .panic a :=
+  Arena.out_of_range_panics a x h n
+
 /-- Full-strength statement for `detach` (FALSE, see below): a removed id leaves the arena alone. -/
 def C04_arena_stale_detach_Statement : Prop :=
   ∀ (a : Arena) (x : Arena.NodeId), Arena.Wf a → Arena.Removed a x → Arena.detach a x = .done a ()
